@@ -163,12 +163,13 @@ def run(ctx):
     n_hist, n_steps = (420, 8) if ctx.quick else (5600, 10)
     specs = history_specs(ctx, n_hist, n_steps)
     wave = 560  # histories generated and validated together (bounds memory in the thorough tier)
+    collect(ctx, validate_all(ctx, generated_cases(ctx)))
     for k in range(0, len(specs), wave):
         collect(ctx, validate_all(ctx, generate(specs[k:k + wave])))
     ctx.extra['histories'] = n_hist
     ctx.extra['steps_per_history'] = n_steps
     ctx.require_clauses(['OutsideTokens.out', 'OutsideTokens.in', 'Comments.lost', 'Comments.dup', 'OutsideLines',
-                         'BlankLines'])
+                         'BlankLines', 'RefEdit.agree'])
 
 
 class _FixedChoice:
@@ -188,13 +189,11 @@ def _tuplify(v):
     return tuple(_tuplify(x) for x in v) if isinstance(v, list) else v
 
 
-def single_step_batch(pre_src: str, pl: dict):
-    """Re-execute one recorded request on a tree freshly built from the recorded pre source -> (batch, scripts)."""
+def run_step(rec, tt, tid: int, pre_src: str, pl: dict, extra=None):
+    """Execute one request (a plan description) on a tree freshly built from `pre_src` -> (trace, script entry)."""
     import ast
     from harness import edits, c04_tokens
     from harness.edits import FST
-    rec = edits.Recorder()
-    tt = c04_tokens.TokTables()
     hooks = c04_tokens.make_hooks(tt)
     plan = edits.Plan()
     for k in ('kind', 'field', 'form', 'start', 'stop', 'idx', 'et', 'srcs', 'codeform', 'corrupt'):
@@ -228,10 +227,91 @@ def single_step_batch(pre_src: str, pl: dict):
     ev = edits.make_event(plan, o, exc, rec.state(root), edits.try_parse(pre_src))
     ev['hasClean'], ev['clean'] = False, {'outcome': '', 'text': 0}
     hooks['post'](root, plan, o, ev, pre_src)
-    script = [{'pre_src': pre_src, 'plan': plan.describe(), 'post_src': root.src,
-               'exc': None if exc is None else f'{type(exc).__name__}: {exc}'}]
-    scripts = {1: {'driver': 'c04_step', 'progs': [], 'variant': -1, 'seed': 0, 'nsteps': 1, 'script': script}}
-    return dict(rec.tab.dump(), **tt.dump(), traces=[{'id': 1, 'seed': 0, 'init': init, 'steps': [ev]}]), scripts
+    if extra:
+        ev.update(extra(root.src))
+    script = {'pre_src': pre_src, 'plan': plan.describe(), 'post_src': root.src,
+              'exc': None if exc is None else f'{type(exc).__name__}: {exc}'}
+    return {'id': tid, 'seed': 0, 'init': init, 'steps': [ev]}, script
+
+
+def single_step_batch(pre_src: str, pl: dict):
+    """Re-execute one recorded request on a tree freshly built from the recorded pre source -> (batch, scripts)."""
+    from harness import edits, c04_tokens
+    rec = edits.Recorder()
+    tt = c04_tokens.TokTables()
+    tr, script = run_step(rec, tt, 1, pre_src, pl)
+    scripts = {1: {'driver': 'c04_step', 'progs': [], 'variant': -1, 'seed': 0, 'nsteps': 1, 'script': [script]}}
+    return dict(rec.tab.dump(), **tt.dump(), traces=[tr]), scripts
+
+
+# ----------------------------------------------------------------------------------------------------------------------
+# (G) the case table of the reference editor (spec/TokenGen.tla), concretised and replayed into pfst
+
+def _line_text(x):
+    if x['k'] == 'blank':
+        return ''
+    if x['k'] == 'cmt':
+        return f"# c{x['id']}"
+    return ('new = 0' if x['id'] == 9 else f"s{x['id']} = {x['id']}") + (f"  # c{x['tr']}" if x['tr'] else '')
+
+
+def _gen_shard(args):
+    shard_id, rows = args
+    from harness import edits, c04_tokens
+    rec = edits.Recorder()
+    tt = c04_tokens.TokTables()
+    traces, scripts = [], {}
+    for tid, row in rows:
+        q = row['req']
+        pre_src = '\n'.join(_line_text(x) for x in row['pre']) + '\n'
+        pl = {'path': [], 'kind': 'Module', 'field': 'body', 'start': None, 'stop': None, 'idx': None, 'et': 'stmt',
+              'srcs': [], 'codeform': 'src', 'corrupt': None, 'view': None,
+              'opts': {'trivia': (q['lm'], q['tm'])}}
+        if q['op'] == 'delete':
+            pl.update(form='del', idx=q['i'] - 1, op='remove')
+        elif q['op'] == 'replace':
+            pl.update(form='one', idx=q['i'] - 1, srcs=['new = 0'], op='replace')
+        else:
+            pl.update(form='slice', start=q['i'] - 1, stop=q['i'] - 1, srcs=['new = 0'], op='insert', opts={})
+        expect = [tt.line(_line_text(x)) for x in row['expect']]
+        g = {'op': q['op'], 'expect': expect, 'newline': tt.line('new = 0')}
+        tr, script = run_step(rec, tt, tid, pre_src, pl, extra=lambda post_src: {'g': g})
+        scripts[tid] = {'driver': 'c04_gen', 'progs': [], 'variant': -2, 'seed': 0, 'nsteps': 1, 'script': [script]}
+        traces.append(tr)
+    return dict(rec.tab.dump(), **tt.dump(), traces=traces), scripts
+
+
+def generated_cases(ctx, nproc=14):
+    """TLC emits the table (ASSUME JsonSerialize), the rows are concretised and run against pfst."""
+    import os
+    import tempfile
+    from harness import tlc
+    out = os.path.join(tempfile.mkdtemp(prefix='c04gen-', dir=tlc.scratch()), 'rows.json')
+    cfg = 'TokenGen' if ctx.quick else 'TokenGen_thorough'
+    try:
+        r = _retry(lambda: _run_gen(cfg, out))
+    except tlc.TLCError as e:
+        raise common.Machinery(str(e)) from e
+    ctx.models.append({'module': 'TokenGen', 'cfg': cfg, 'kind': 'case-table', 'wall_s': r['wall_s']})
+    with open(out) as f:
+        rows = json.load(f)
+    if not ctx.quick:  # deterministic sample of the NStmt = 3 table
+        rng = random.Random(ctx.seed + 77)
+        rows = rng.sample(rows, min(len(rows), 24000))
+    ctx.extra['generated_cases'] = len(rows)
+    numbered = list(enumerate(rows, 1))
+    nshards = max(1, min(nproc, len(numbered) // 200 or 1), len(numbered) // 1500)
+    shards = [(k, numbered[k::nshards]) for k in range(nshards)]
+    with mp.get_context('fork').Pool(min(nproc, nshards)) as pool:
+        return pool.map(_gen_shard, shards)
+
+
+def _run_gen(cfg, out):
+    from harness import tlc
+    try:
+        return tlc.run_model('TokenGen', cfg, workers=2, timeout=900, heap='3g', env={'OUT_FILE': out})
+    except tlc.TLCError as e:
+        raise common.Machinery(str(e)) from e
 
 
 def replay(ctx, path):
